@@ -137,6 +137,12 @@ def run(tier="quick", seed=0):
             jobs.append({"spec": spec_of(b, False, True, thrown), "seed": sd, "sched": "sync", "base": b})
             if thorough:
                 jobs.append({"spec": spec_of(b, False, False, thrown), "seed": sd, "sched": "sync", "base": b})
+    # a run whose shower stage is large (several 100-event partitions, high energy: long showers that reach above 30 km), under every
+    # scheduler: state carried from one shower to the next on a kernel object shows up as a scheduler dependence
+    heavy = {"mode": "Diffuse", "spectrum": "mono", "log_e": 9.0, "cloud": "none", "altitude": 525.0, "optical": True, "radio": False, "thrown": 450}
+    for sd in seeds:
+        for sch in SCHEDS:
+            jobs.append({"spec": heavy, "seed": sd, "sched": sch, "base": ("Diffuse", "mono9", "none", "heavy-optical")})
     # no surviving trajectory: empty but valid table (both modes of reaching it)
     empty = {"mode": "Target", "thrown": 20, "obst": 600.0, "ra": 0.0, "dec": 1.5}
     for o, rd in ((True, True), (True, False), (False, True)):
